@@ -350,10 +350,12 @@ Definition vmerge (ti ri : nat) (s : cst) : res cst :=
   | _, _ => Ok sa
   end.
 
+(* one step of the horizontal loop (repaired _close_table_cell: an empty row gets a
+   blank cell where this_tr[-1] used to raise IndexError) *)
 Definition hstep (v : env) (cs : list node) : res (list node) :=
   if env_dup v then
     match cs with
-    | [] => Err IndexError
+    | [] => Ok (NL [NP new_empty_par] :: cs)
     | c :: _ => Ok (copy_node c :: cs)
     end
   else Ok (NL [NP new_empty_par] :: cs).
@@ -368,23 +370,25 @@ Definition hloop (v : env) (ti ri : nat) : nat -> cst -> res cst :=
         loop k (set_tree root' sa)
     end.
 
+(* close_table_cell in terms of the named phases, after its two early returns *)
 Lemma close_table_cell_eq v e ks s :
   close_table_cell v e ks s =
   (pr <- gather_Pr e ks ;;
-   rows0 <- match c_tree s with
-            | [] => Err IndexError
-            | t :: _ => as_list t
-            end ;;
-   _ <- match rows0 with
-        | [] => Err IndexError
-        | r :: _ => as_list r
-        end ;;
+   match c_tree s with
+   | [] => Ok s
+   | t :: _ =>
+   rows0 <- as_list t ;;
+   match rows0 with
+   | [] => Ok s
+   | r :: _ =>
+   _ <- as_list r ;;
    let ti := length (c_tree s) - 1 in
    let ri := length rows0 - 1 in
    s1 <- (if (env_dup v && is_continuation pr && Nat.ltb 1 (length rows0))%bool
           then vmerge ti ri s else Ok s) ;;
    span <- span_of pr ;;
-   hloop v ti ri (Z.to_nat (span - 1)) s1).
+   hloop v ti ri (Z.to_nat (span - 1)) s1
+   end end).
 Proof. reflexivity. Qed.
 
 Lemma hloop_S v ti ri k s :
